@@ -46,5 +46,6 @@ RInverse(Mx) == LET n == Len(Mx)  d == RDet(Mx) IN
 RSymmetric(Mx) == \A i, j \in 1..Len(Mx) : Mx[i][j] = Mx[j][i]
 \* positive (semi)definite by leading principal minors (positive definite when all > 0)
 RLeading(Mx, k) == [i \in 1..k |-> [j \in 1..k |-> Mx[i][j]]]
-RPosDef(Mx) == \A k \in 1..Len(Mx) : RLess(RZero, RDet(RLeading(Mx, k)))
+RPos(q) == q[1] > 0
+RPosDef(Mx) == \A k \in 1..Len(Mx) : RPos(RDet(RLeading(Mx, k)))
 =============================================================================
